@@ -91,3 +91,6 @@ package prolog
 //@   property C12
 //@   requires s != nil
 //@   modifies nothing
+
+//@ global monotone-flag prolog.Solutions.closed C12
+//@ global monotone-flag prolog.Solutions.done C12
